@@ -788,6 +788,32 @@ func TestMultiAssignTargetsV2(t *testing.T) {
 	evid.Exhaustive("v2 multi-assignment: target combinations (names, elements through the same name, aliases, key names) x {top level, block, loop}", n)
 }
 
+// TestStringMembershipV2: `needle in haystack` on strings is byte-wise containment, also for needles and haystacks
+// that are not valid UTF-8, for U+FFFD, for parts of a character, and for the per-character values a for-in delivers.
+func TestStringMembershipV2(t *testing.T) {
+	strs := []string{"", "a", "abc", "caf\xc3\xa9", "\xff", "\xfe", "a\xfeb", "x\xfe", "\xc3", "\xa9", "\xef\xbf\xbd", "a\xef\xbf\xbdb", "\xf0\x9f\x98\x80", "\xf0\x9f", "\x98\x80", "\x00", "a\x00b", "é", "e"}
+	n := 0
+	for _, needle := range strs {
+		for _, hay := range strs {
+			prog := []*gen.Node{gen.NCall("probe", str("in"), gen.NBin("in", str(needle), str(hay))),
+				gen.NSet("nd", str(needle)), gen.NSet("hs", str(hay)), gen.NCall("probe", str("in-vars"), gen.NBin("in", id("nd"), id("hs")))}
+			judge(t, "string-in", sem.NewCase(gen.FixAll(prog)), fmt.Sprintf("strin/%x/%x", needle, hay), true, "string-membership-v2")
+			n++
+		}
+		// every character of the needle, as a for-in delivers it, against every haystack
+		var body []*gen.Node
+		for hi, hay := range strs {
+			body = append(body, gen.NCall("probe", str(fmt.Sprint("c-in-", hi)), id("c"), gen.NBin("in", id("c"), str(hay))))
+		}
+		if needle != "" {
+			prog := []*gen.Node{gen.NForIn("c", str(needle), body)}
+			judge(t, "string-in", sem.NewCase(gen.FixAll(prog)), fmt.Sprintf("strin-forin/%x", needle), true, "string-membership-v2")
+			n++
+		}
+	}
+	evid.Exhaustive("needle x haystack over valid, invalid and partial encodings; for-in characters as needles", n)
+}
+
 func TestFixedDialect(t *testing.T) {
 	cases := [][]*gen.Node{
 		{gen.NCall("probe", str("x"), id("undefined_name"))},
